@@ -156,7 +156,13 @@ func (l *s3Lister) ListCompleted(ctx context.Context) ([]SegmentRef, error) {
 			continue
 		}
 		ok, err := l.hasFooterMagic(ctx, entry.kfsKey)
-		if err != nil || !ok {
+		if err != nil {
+			// A failed probe says nothing about completeness. Leaving the
+			// segment out would open a gap in the partition that callers
+			// checkpoint across, so fail the listing and let them retry.
+			return nil, fmt.Errorf("probe segment footer %s: %w", entry.kfsKey, err)
+		}
+		if !ok {
 			continue
 		}
 		segment := SegmentRef{
